@@ -106,7 +106,7 @@ class PyCodegen(Stringifier):
 
     def __init__(self, style, depth=0):
         super().__init__(
-            style=style, depth=depth, symgen=PyCodeMapper(), line_cont='\n{}  '.format
+            style=style, depth=depth, symgen=PyCodeMapper(), line_cont=' \\\n{}  '.format
         )
 
     # Handler for outer objects
